@@ -61,7 +61,10 @@ pub fn run_dp(tier: &str, seed: u64, out: &mut dyn Write) {
                       ("(def (Report (x 1)) (a 2) (b 7)) (when true (:= Report.x (+ (:= a b) (:= b 5))) (report))", 5),
                       ("(def (Report (x 1) (y 4)) (a 2)) (when true (:= Report.x (- (:= a Report.y) (:= Report.y 3))) (report))", 5),
                       ("(def (Report (x 1)) (a 2) (b 7)) (when true (:= l b) (:= Report.x (* (:= a l) (:= l 9))) (report))", 5),
-                      ("(def (Report (x 1)) (a 2)) (when true (:= Report.x (+ (:= a Ack.bytes_acked) (:= a 3))) (report))", 5)] {
+                      ("(def (Report (x 1)) (a 2)) (when true (:= Report.x (+ (:= a Ack.bytes_acked) (:= a 3))) (report))", 5),
+                      // the target of a bind is itself a bind whose variable the value reads
+                      ("(def (Report (volatile a 0))) (when true (bind (bind Report.a 7) (+ Report.a 1)) (report))", 5),
+                      ("(def (Report (a 0)) (c 100)) (when true (:= (:= c 5) (+ c 1)) (:= Report.a c) (report))", 5)] {
         if let Some((inst, _)) = install_hex(src.as_bytes(), 77) {
             let cp = changeprog::Msg { sid: 1, program_uid: 77, num_fields: 0, fields: vec![] };
             let cpb = serialize::serialize(&cp).unwrap();
